@@ -162,6 +162,15 @@ def op_c(fr, i, obj, args):
     return _opobj(P([cann(args[0])]))
 
 
+def op_n(fr, i, obj, args):
+    return _opobj(P([cdag(args[0]), cann(args[0])]))
+
+
+def op_noffdiag(fr, i, obj, args):
+    # OperatorPresets::n_offdiag(i, j) = c+_i c_j (its own body is part of C05, here it is a primitive of the algebra model)
+    return _opobj(P([cdag(args[0]), cann(args[1])]))
+
+
 def op_isempty(fr, i, obj, args):
     return len(obj.f["poly"]) == 0
 
@@ -204,6 +213,7 @@ def get_index(fr, i, obj, args):
 PRIMS = {"new Pomerol::Lattice::Term": new_term,
          "construct Pomerol::Operator": op_default,
          "Pomerol::OperatorPresets::c_dag": op_cdag, "Pomerol::OperatorPresets::c": op_c,
+         "Pomerol::OperatorPresets::n": op_n, "Pomerol::OperatorPresets::n_offdiag": op_noffdiag,
          "Pomerol::Operator::isEmpty": op_isempty, "Pomerol::Operator::operator*=": op_imul, "Pomerol::Operator::operator+=": op_iadd,
          "Pomerol::operator*": op_scal, "boost::operators_impl::operator*": op_scal, "Pomerol::Operator::operator=": op_assign,
          "Pomerol::IndexClassification::getIndex": get_index}
